@@ -631,6 +631,8 @@ class World:
 
 _worlds = {}
 _so_template = None
+_history = []               # indices of the tasks this worker has run (this pool run)
+_reported_sites = set()
 
 
 def _so_path():
@@ -866,6 +868,16 @@ def _work(task):
     r = b.result()
     # (jv.pool prunes parso's cache entries for scratch files after every task)
     r['parsed'] = parsed_files(world)
+    r = json.loads(json.dumps(r, default=repr))     # e.g. Path objects left in sys.path
+    sites = {site for site, _ in r['found']}
+    if sites - _reported_sites:
+        # first time this worker sees the site: ship what it had analysed before, because a
+        # state leak from one query into a later one (C12's very subject) may only be
+        # reproducible after the same history
+        r['history'] = list(_history)
+        _reported_sites.update(sites)
+    if 'i' in task:
+        _history.append(task['i'])
     return r
 
 
@@ -1209,6 +1221,8 @@ def run(ctx):
     for li, (name, ts) in enumerate(levels):
         tasks += ts
         level_of += [li] * len(ts)
+    for i, t in enumerate(tasks):
+        t['i'] = i
     pres = pool.run(tasks, 'jv.props.c12:_work', init='jv.props.c12:_init',
                     seed=ctx.seed, deadline=ctx.deadline, tag='c12')
     ctx.absorb(pres, 'exploration')
@@ -1270,7 +1284,11 @@ def run(ctx):
                     tuple(sorted(f for f in r['hit_files'] if f in files_v))))
         parsed.update(r.get('parsed', ()))
         for site, detail in r['found']:
-            ctx.violation(site, iid, detail, {'task': t, 'call': detail.get('call')})
+            case = {'task': t, 'call': detail.get('call'), 'site': site, 'tier': ctx.tier,
+                    'have_so': have_so}
+            if 'history' in r:
+                case['history'] = r['history']
+            ctx.violation(site, iid, detail, case)
     done_levels = []
     exhaustive = True
     samples = []
@@ -1355,9 +1373,22 @@ def replay(case):
         _so_template = build_so_template(os.path.dirname(_so_path()))
     t = dict(case['task'])
     t.pop('only_call', None)
-    r = _work(t)
-    out = []
-    for site, detail in r.get('found', ()):
-        out.append((site, _input_id(t), detail))
+
+    def one():
+        r = _work(t)
+        return [(site, _input_id(t), detail) for site, detail in r.get('found', ())]
+    out = one()
+    want = case.get('site')
+    if case.get('history') and not any(o[0] == want or want is None for o in out):
+        # Not reproducible in a fresh process: the violation depended on what the same worker
+        # had analysed before.  Re-walk that history (same code path as the explorer, repairs
+        # included), then the case itself.
+        levels, _ = _levels(case.get('tier', 'quick'), auto_names(), bool(case.get('have_so')))
+        tasks = [x for _, ts in levels for x in ts]
+        _reported_sites.clear()
+        for i in case['history']:
+            if 0 <= i < len(tasks):
+                _work(tasks[i])
+        out = one()
     Procs.kill_helpers()
     return out
